@@ -309,7 +309,16 @@ fn plan_c07(o: &Opts) -> Vec<GroupSpec> {
    let mut out = vec![];
    for i in 0..n as u64 {
       let mut r = rng_for("C07", o.seed, i);
-      let prog = gen::gen_sugar(&mut r, &GenCfg::core());
+      // every sixth program is built around a BYODS relation: constants, repeated variables, wildcards and negation on
+      // a relation whose provider answers an indexed lookup and a scan through different code
+      let with_byods = i % 6 == 4;
+      let prog = if with_byods {
+         let ds = [vcore::ast::Ds::EqRel, vcore::ast::Ds::TrRel, vcore::ast::Ds::TrRelUf][vcore::rng::Src::below(&mut r, 3)];
+         let ternary = vcore::rng::Src::chance(&mut r, 40);
+         vcore::gen_ds::gen_byods(&mut r, &GenCfg::core(), ds, ternary)
+      } else {
+         gen::gen_sugar(&mut r, &GenCfg::core())
+      };
       if gen::kf2_shape(&prog) && GenCfg::core().excluded("KF-2") {
          crate::count_excluded("KF-2");
          continue;
@@ -318,7 +327,7 @@ fn plan_c07(o: &Opts) -> Vec<GroupSpec> {
       let mut members =
          vec![MemberSpec { prog: prog.clone(), opts: PrintOpts::plain(Kind::Ascent), meta: meta(&base, "sugared", Kind::Ascent, true) }];
       // the sugared form also as ascent_par! in every third group (its plans use other index types than the expansion's)
-      if i % 3 == 2 && gen::par_rejects(&prog).is_none() {
+      if i % 3 == 2 && !with_byods && gen::par_rejects(&prog).is_none() {
          members.push(MemberSpec { prog: prog.clone(), opts: PrintOpts::plain(Kind::AscentPar), meta: meta(&base, "sugared_par", Kind::AscentPar, false) });
       }
       for (name, split) in [("core", false), ("core_split_joins", true)] {
